@@ -8,6 +8,7 @@ from anytree import AnyNode, CountError, cachedsearch, search
 
 from .. import forest, refs, shapes, strategies
 from ..core import Violation
+from . import c06
 
 PROP_ID = "C14"
 LEVEL = "exploration"
@@ -151,8 +152,9 @@ def _once(case, acc, tree, labels):
     stop_ids = {id(tree[i]) for i in case["stop"]}
     hide_ids = {id(tree[i]) for i in case["hide"]}
     maxlevel = case["maxlevel"]
-    stop = (lambda n: id(n) in stop_ids) if case["stop"] else None
-    filter_ = (lambda n: id(n) not in hide_ids) if case["hide"] else None
+    _yes, _no = c06.TRUTH_STYLES[case.get("truth", 0) % 4]  # predicates are judged by truth value only
+    stop = (lambda n: _yes if id(n) in stop_ids else _no) if case["stop"] else None
+    filter_ = (lambda n: _yes if id(n) not in hide_ids else _no) if case["hide"] else None
     admitted = refs.admitted_ids(start, stop_ids, maxlevel)
     expected = refs.restricted(refs.preorder(start), admitted, hide_ids)
     c = len(expected)
@@ -258,6 +260,7 @@ def random_cases(draw, max_nodes=20):
         "stop": draw(strategies.subsets_of(size, max_size=2)),
         "hide": draw(strategies.subsets_of(size, max_size=size)),
         "maxlevel": draw(st.one_of(st.none(), st.none(), st.integers(0, 5))),
+        "truth": draw(st.integers(0, 3)),
         "by": draw(st.one_of(
             st.fixed_dictionaries({"name": st.sampled_from(ATTR_NAMES), "value": st.sampled_from(VALUES)}),
             st.fixed_dictionaries({"name": st.sampled_from(["depth", "height"]), "value": st.integers(0, 3)}),
@@ -289,6 +292,7 @@ def _enum_cases(max_nodes, index, count):
                             "stop": [size - 1] if k % 3 == 0 else [],
                             "hide": [0] if k % 5 == 0 else [],
                             "maxlevel": maxlevel,
+                            "truth": k,
                             "by": {"name": ("name", "kind", "parent.name", "a.b", "depth", "is_leaf")[k % 6], "value": value if k % 6 < 4 else (k // 6) % 2},
                         }
 
